@@ -19,7 +19,7 @@ def _is_int_array_index(index):
     -------
     bool"""
     return any(
-        np.issubdtype(np.asarray(ind).dtype, np.int_) and np.asarray(ind).ndim
+        np.issubdtype(np.asarray(ind).dtype, np.integer) and np.asarray(ind).ndim
         for ind in index
     )
 
